@@ -1,0 +1,13 @@
+//! Verification accessors (compiled only with `--cfg vbxq_aelys_lang_verif`); read-only.
+use super::Heap;
+
+impl Heap {
+    /// The free list as stored (the next allocation pops the last element).
+    pub fn verif_free_list(&self) -> Vec<usize> {
+        self.free_list.clone()
+    }
+    /// Number of slots (live or free) in the object vector.
+    pub fn verif_slot_count(&self) -> usize {
+        self.objects.len()
+    }
+}
